@@ -388,6 +388,13 @@ class CpuidCheck:
         target, (ok, log) = vlib.build_exe("xvcpuid." + tier, os.path.join(vlib.VERIF, "harness", "h_cpuid.cpp"), flags=["-msse2", '-DXV_DISPATCH_LISTS="%s"' % hp], libs=["-lpthread"], opt="-O0")
         if not ok:
             sys.stderr.write(log[-4000:])
+            # the generated dispatch programs call dispatch(f)(lvalue, rvalue of a move-only type, const reference): when
+            # the dispatcher itself stops accepting that call, "forwards the arguments" is violated at compile time
+            errs = [l for l in log.splitlines() if " error: " in l]
+            if errs and "xsimd_arch.hpp" in errs[0] and any(k in errs[0] for k in ("no match for call", "cannot bind", "no matching function")):
+                path = vlib.write_replay("C15", 0, {"property": "C15", "op": "dispatch:forwarding", "type": "program", "arch": "host", "note": errs[0][-600:], "program": "harness/h_cpuid.cpp", "replay_kind": "cpuid"})
+                print("VIOLATION property=C15 replay=%s  # dispatch(f)(args...) does not forward its arguments: %s" % (path, errs[0][-300:]))
+                sys.exit(1)
             print("[vcheck] C15: the CPUID harness does not compile against the current tree")
             sys.exit(2)
         return target
